@@ -51,23 +51,22 @@ theorem mergeGraph_fields (g : GraphP) :
   cases g
   exact ⟨rfl, rfl, nodeOutNames_mergeNodes _, rfl⟩
 
-theorem desModel_merge (m : ModelP) (h : wfModel (mergeModel m) = true) :
+/-- `desModel_merge` from exactly what it uses: the merged graph and functions are well formed and, below IR
+version 10, no graph output that the graph declares has a name of the experimental form (the dropped
+`value_info` entries name such outputs; the experimental decoding must not read them) -/
+theorem desModel_merge' (m : ModelP) (hg : wfGraph [] (mergeGraph m.graph) = true)
+    (hf : (m.functions.map mergeFunction).all (wfFunction m.irVersion) = true)
+    (hout : m.irVersion ≥ 10 ∨ ∀ n ∈ m.graph.outputs.map (·.name),
+      n ∈ m.graph.initializers.map (·.name) ++ nodeOutNames m.graph.nodes → parseExperimentalName n = none) :
     desModel (mergeModel m) = desModel m := by
-  have h0 := h
-  simp only [wfModel, Bool.and_eq_true, Bool.or_eq_true, decide_eq_true_eq, mergeModel] at h
-  obtain ⟨⟨⟨⟨⟨⟨hg, hf⟩, _⟩, _⟩, _⟩, _⟩, hexp⟩ := h
   obtain ⟨e1, e2, e3, e4⟩ := mergeGraph_fields m.graph
   simp only [desModel, mergeModel, desGraph_merge [] m.graph hg, desFunctions_merge m.irVersion m.functions hf]
   by_cases hlt : m.irVersion < 10
-  · have hplain : ∀ n ∈ scopeNames (m.graph.inputs.map (·.name)) (m.graph.initializers.map (·.name))
-        (nodeOutNames m.graph.nodes), parseExperimentalName n = none := by
-      rcases hexp with h10 | hexp
-      · have := of_decide_eq_true h10
-        omega
-      · intro n hn
-        rw [e1, e2, e3] at hexp
-        have := List.all_eq_true.1 hexp n hn
-        simpa using this
+  · have hplain : ∀ n ∈ m.graph.outputs.map (·.name),
+        n ∈ m.graph.initializers.map (·.name) ++ nodeOutNames m.graph.nodes → parseExperimentalName n = none := by
+      rcases hout with h10 | h
+      · omega
+      · exact h
     have key : ∀ d nm vn, findLast? (fun e => e.1 = vn) (experimentalFor (mergeGraph m.graph).valueInfo d nm)
         = findLast? (fun e => e.1 = vn) (experimentalFor m.graph.valueInfo d nm) := by
       intro d nm vn
@@ -78,23 +77,36 @@ theorem desModel_merge (m : ModelP) (h : wfModel (mergeModel m) = true) :
         (fun k => decide (parseExperimentalName k = some (d, nm, vn)))
       intro v hv
       simp only [decide_eq_true_eq] at hv
-      have hns : v.name ∉ scopeNames (m.graph.inputs.map (·.name)) (m.graph.initializers.map (·.name))
-          (nodeOutNames m.graph.nodes) := by
-        intro hm
-        rw [hplain _ hm] at hv
-        cases hv
-      by_cases hd : v.name ∈ m.graph.initializers.map (·.name) ++ nodeOutNames m.graph.nodes
-      · by_cases hi : v.name ∈ m.graph.inputs.map (·.name)
-        · simp [hi]
-        · exfalso
-          apply hns
-          rcases List.mem_append.1 hd with hd | hd
-          · exact mem_scopeNames.2 (Or.inr (Or.inl ⟨hd, hi⟩))
-          · exact mem_scopeNames.2 (Or.inr (Or.inr hd))
-      · simp [hd]
+      by_cases ho : v.name ∈ m.graph.outputs.map (·.name)
+      · by_cases hd : v.name ∈ m.graph.initializers.map (·.name) ++ nodeOutNames m.graph.nodes
+        · rw [hplain _ ho hd] at hv
+          cases hv
+        · simp [hd]
+      · simp [ho]
     have key2 := applyExperimentalAll_congr key
     simp only [hlt, if_true, key2]
   · simp only [hlt, if_false]
+
+theorem desModel_merge (m : ModelP) (h : wfModel (mergeModel m) = true) :
+    desModel (mergeModel m) = desModel m := by
+  simp only [wfModel, Bool.and_eq_true, Bool.or_eq_true, decide_eq_true_eq, mergeModel] at h
+  obtain ⟨⟨⟨⟨⟨⟨hg, hf⟩, _⟩, _⟩, _⟩, _⟩, hexp⟩ := h
+  obtain ⟨e1, e2, e3, e4⟩ := mergeGraph_fields m.graph
+  refine desModel_merge' m hg hf ?_
+  rcases hexp with h10 | hexp
+  · exact Or.inl (by simpa using h10)
+  · right
+    intro n _ hd
+    rw [e1, e2, e3] at hexp
+    have hs : n ∈ scopeNames (m.graph.inputs.map (·.name)) (m.graph.initializers.map (·.name))
+        (nodeOutNames m.graph.nodes) := by
+      by_cases hi : n ∈ m.graph.inputs.map (·.name)
+      · exact mem_scopeNames.2 (Or.inl hi)
+      · rcases List.mem_append.1 hd with hd | hd
+        · exact mem_scopeNames.2 (Or.inr (Or.inl ⟨hd, hi⟩))
+        · exact mem_scopeNames.2 (Or.inr (Or.inr hd))
+    have := List.all_eq_true.1 hexp n hs
+    simpa using this
 
 /-! ### `WFproto p -> merge p = p` -/
 
